@@ -145,7 +145,7 @@ impl ProgressDrawTarget {
 spec fn req_case(a: ProgressDrawTarget, b: ProgressDrawTarget, f: bool, now: Instant, lines: Seq<LineType>, r: Result<(), IoError>,
                  granted: bool, x: (GTerm, VisualLines, DrawState), y: (GTerm, VisualLines, DrawState)) -> bool {
     &&& (match a.limiter() { Some(rl0) => (b.limiter() matches Some(rl1) && limiter_after(rl0, rl1, f, now, granted)), None => granted })   // C05: the limiter is consulted only when not forced
-    &&& (granted ==> exists|e: DrawState| e.lines@ == lines && e.move_cursor == x.2.move_cursor && e.alignment == x.2.alignment
+    &&& (granted ==> exists|e: DrawState| e.lines@ == lines && e.move_cursor == x.2.move_cursor
                           && #[trigger] dtt_post(e, y.2, x.0, y.0, x.1, y.1, r))              // C04: exactly this frame goes to draw_to_term
     &&& (!granted ==> y == x && r.is_ok())                                // C03/C05: a skipped draw changes nothing
 }
@@ -453,7 +453,8 @@ fn opt_allow(rl: &mut Option<RateLimiter>, now: Instant) -> (res: bool)
         Fn("src/draw_target.rs", "ProgressDrawTarget", "width", ret="r",
            rewrites=[Rw("R10", r"term\.size\(\)\.1", "term.width()"), Rw("R2", r"state\.read\(\)\.unwrap\(\)\.width\(\)", "state.width()")],
            requires=[("wf", "self.wf()")],
-           ensures=[("own-width", "self.own() matches Some(x) ==> r == Some(x.0.w as u16)"), ("hidden-none", "self.kind is Hidden ==> r is None")]),
+           ensures=[("own-width", "self.own() matches Some(x) ==> r == Some(x.0.w as u16)"), ("hidden-none", "self.kind is Hidden ==> r is None"),
+                    ("width-positive", "!(self.kind is Multi) ==> (r matches Some(v) ==> v >= 1)")]),
         Fn("src/draw_target.rs", "ProgressDrawTarget", "is_hidden", ret="r",
            rewrites=[Rw("R2", r"state\.read\(\)\.unwrap\(\)\.is_hidden\(\)", "state.is_hidden()")],
            ensures=[("C06-is-hidden", "r == self.hidden()")]),
